@@ -195,6 +195,115 @@ impl<D0: Domain, D1: Domain, D2: Domain, E> Mk<E> for MArrD3<D0, D1, D2, E> {
 }
 
 // ---------------------------------------------------------------------------------------------
+// Multi-dimensional containers as opinion domains (families M2/M3, D2/D3, N2/N3): operands are
+// built through the `new` constructors only (never `from_iter` / `from_fn`, which are the plumbing
+// under observation) and results are read cell by cell THROUGH THE INDEX OPERATOR.
+pub trait Nd<E>: Sized {
+    /// from the row-major cells
+    fn build(v: Vec<E>) -> Self;
+    /// every cell through `Index`, in row-major index order
+    fn cells(&self) -> Vec<&E>;
+    /// every cell in the container's own iteration order
+    fn iter_cells(&self) -> Vec<&E>;
+}
+impl<E, const K0: usize, const K1: usize> Nd<E> for MArr2<E, K0, K1> {
+    fn build(v: Vec<E>) -> Self {
+        assert!(v.len() == K0 * K1, "harness: bad length");
+        let mut it = v.into_iter();
+        MArr2::new(std::array::from_fn(|_| MArr1::new(std::array::from_fn(|_| it.next().unwrap()))))
+    }
+    fn cells(&self) -> Vec<&E> {
+        let mut o = Vec::new();
+        for i in 0..K0 {
+            for j in 0..K1 {
+                o.push(&self[[i, j]]);
+            }
+        }
+        o
+    }
+    fn iter_cells(&self) -> Vec<&E> {
+        self.into_iter().collect()
+    }
+}
+impl<E, const K0: usize, const K1: usize, const K2: usize> Nd<E> for MArr3<E, K0, K1, K2> {
+    fn build(v: Vec<E>) -> Self {
+        assert!(v.len() == K0 * K1 * K2, "harness: bad length");
+        let mut it = v.into_iter();
+        MArr3::new(std::array::from_fn(|_| {
+            MArr2::new(std::array::from_fn(|_| MArr1::new(std::array::from_fn(|_| it.next().unwrap()))))
+        }))
+    }
+    fn cells(&self) -> Vec<&E> {
+        let mut o = Vec::new();
+        for i in 0..K0 {
+            for j in 0..K1 {
+                for k in 0..K2 {
+                    o.push(&self[[i, j, k]]);
+                }
+            }
+        }
+        o
+    }
+    fn iter_cells(&self) -> Vec<&E> {
+        self.into_iter().collect()
+    }
+}
+impl<D0: Domain, D1: Domain, E> Nd<E> for MArrD2<D0, D1, E> {
+    fn build(v: Vec<E>) -> Self {
+        assert!(v.len() == D0::LEN * D1::LEN, "harness: bad length");
+        let mut it = v.into_iter();
+        MArrD2::new(
+            (0..D0::LEN)
+                .map(|_| MArrD1::new((0..D1::LEN).map(|_| it.next().unwrap()).collect::<Vec<E>>()))
+                .collect::<Vec<_>>(),
+        )
+    }
+    fn cells(&self) -> Vec<&E> {
+        let mut o = Vec::new();
+        for i in 0..D0::LEN {
+            for j in 0..D1::LEN {
+                o.push(&self[(D0::Idx::from(i), D1::Idx::from(j))]);
+            }
+        }
+        o
+    }
+    fn iter_cells(&self) -> Vec<&E> {
+        self.into_iter().collect()
+    }
+}
+impl<D0: Domain, D1: Domain, D2: Domain, E> Nd<E> for MArrD3<D0, D1, D2, E> {
+    fn build(v: Vec<E>) -> Self {
+        assert!(v.len() == D0::LEN * D1::LEN * D2::LEN, "harness: bad length");
+        let mut it = v.into_iter();
+        MArrD3::new(
+            (0..D0::LEN)
+                .map(|_| {
+                    MArrD2::new(
+                        (0..D1::LEN)
+                            .map(|_| MArrD1::new((0..D2::LEN).map(|_| it.next().unwrap()).collect::<Vec<E>>()))
+                            .collect::<Vec<_>>(),
+                    )
+                })
+                .collect::<Vec<_>>(),
+        )
+    }
+    fn cells(&self) -> Vec<&E> {
+        let mut o = Vec::new();
+        for i in 0..D0::LEN {
+            for j in 0..D1::LEN {
+                for k in 0..D2::LEN {
+                    o.push(&self[(D0::Idx::from(i), D1::Idx::from(j), D2::Idx::from(k))]);
+                }
+            }
+        }
+        o
+    }
+    fn iter_cells(&self) -> Vec<&E> {
+        self.into_iter().collect()
+    }
+}
+
+// ---------------------------------------------------------------------------------------------
 // Borrowed views of conditional tables (style `r`): a table of `&Simplex`.
 pub trait RefTab {
     type R<'a>
@@ -231,6 +340,55 @@ impl<D0: Domain, D1: Domain, E> RefTab for MArrD2<D0, D1, E> {
     fn rt<'a>(&'a self) -> Self::R<'a> {
         // as in test_deduction_ref2: rows borrowed through `MArrD1::as_ref`
         MArrD2::new(D0::keys().map(|k| self.down(k).as_ref()).collect())
+    }
+}
+
+/// By-reference tables with SHARED entries (variant token `shared`): entry `i` (row-major) refers
+/// to the object stored at position `canon[i]` of `self`, so equal `canon` values alias ONE object.
+pub trait SharedTab: RefTab {
+    fn rt_shared<'a>(&'a self, canon: &[usize]) -> Self::R<'a>;
+}
+impl<E, const N: usize> SharedTab for [E; N] {
+    fn rt_shared<'a>(&'a self, canon: &[usize]) -> Self::R<'a> {
+        std::array::from_fn(|i| &self[canon[i]])
+    }
+}
+impl<E, const K0: usize> SharedTab for MArr1<E, K0> {
+    fn rt_shared<'a>(&'a self, canon: &[usize]) -> Self::R<'a> {
+        MArr1::new(std::array::from_fn(|i| &self[[canon[i]]]))
+    }
+}
+impl<E, const K0: usize, const K1: usize> SharedTab for MArr2<E, K0, K1> {
+    fn rt_shared<'a>(&'a self, canon: &[usize]) -> Self::R<'a> {
+        MArr2::new(std::array::from_fn(|i| {
+            MArr1::new(std::array::from_fn(|j| {
+                let c = canon[i * K1 + j];
+                &self[[c / K1, c % K1]]
+            }))
+        }))
+    }
+}
+impl<D0: Domain, E> SharedTab for MArrD1<D0, E> {
+    fn rt_shared<'a>(&'a self, canon: &[usize]) -> Self::R<'a> {
+        MArrD1::new((0..D0::LEN).map(|i| &self[D0::Idx::from(canon[i])]).collect::<Vec<&'a E>>())
+    }
+}
+impl<D0: Domain, D1: Domain, E> SharedTab for MArrD2<D0, D1, E> {
+    fn rt_shared<'a>(&'a self, canon: &[usize]) -> Self::R<'a> {
+        MArrD2::new(
+            (0..D0::LEN)
+                .map(|i| {
+                    MArrD1::new(
+                        (0..D1::LEN)
+                            .map(|j| {
+                                let c = canon[i * D1::LEN + j];
+                                &self[(D0::Idx::from(c / D1::LEN), D1::Idx::from(c % D1::LEN))]
+                            })
+                            .collect::<Vec<&'a E>>(),
+                    )
+                })
+                .collect::<Vec<_>>(),
+        )
     }
 }
 
